@@ -20,7 +20,7 @@ class RandomBehaviour:
     schedule (needed for C04; harmless elsewhere)."""
 
     def __init__(self, seed, tb_next=(1, 2, 3), ev_next=(None, None, 1, 2), p_event=0.6, p_future=0.2,
-                 future=(0, 1, 2), sparse_pers=False, p_none=0.0, recur=0):
+                 future=(0, 1, 2), sparse_pers=False, p_none=0.0, recur=0, p_extra=0.0):
         self.seed = seed
         self.tb_next = tb_next
         self.ev_next = ev_next
@@ -28,6 +28,7 @@ class RandomBehaviour:
         self.p_future = p_future
         self.future = future
         self.sparse_pers = sparse_pers
+        self.p_extra = p_extra  # probability that a get_data reply also contains an attribute / an entity nobody asked for
         self.recur = recur  # > 0: persistent values RECUR with this period (v, w, v, ...) instead of being unique per step
         self.p_none = p_none  # probability that a produced value is None / falsy / a list / a dict (legal values, not "no output")
 
@@ -67,6 +68,14 @@ class RandomBehaviour:
             data[eid] = d
         if typ != "time-based" and not any_pers and r.random() < self.p_future:
             data["time"] = t + r.choice(self.future)
+        if self.p_extra:
+            rx = self.rng(p.sid, "extra", p.k)
+            if rx.random() < self.p_extra and data:
+                # more than was requested: an attribute that is connected nowhere and an entity that does not take part
+                eid0 = sorted(k_ for k_ in data if k_ != "time")[:1]
+                for e_ in eid0:
+                    data[e_]["zz"] = tok(p.sid, p.k, "zz", e_)
+                data["E9"] = {"p": tok(p.sid, p.k, "p", "E9"), "e": tok(p.sid, p.k, "e", "E9")}
         return Reply(data)
 
 
